@@ -642,6 +642,47 @@ def run_driver(exe, text, timeout=600, env=None, case_timeout=240):
     return rc, parse_driver_output(out), err
 
 
+# which output each bit of a driver's `reuse_bad` mask stands for (per driver; ops of one driver use disjoint meanings
+# only where listed by op name)
+REUSE_SITES = {
+    "drv_pca": ["PCAScorePredictor (output holding a previous result / junk)", "PCAScorePredictor (output holding the scores of another block)",
+                "PCAIndVarPredictor", "GetResidualMatrix"],
+    "drv_pls": ["PLSScorePredictor", "PLSYPredictorAllLV (score output)", "PLSYPredictorAllLV (response output)", "PLSYPredictorAllLV (no score output requested)",
+                "PLSYPredictor (output reused for 1..A latent variables)"],
+    "drv_alg:mlr": ["MLRPredictY"],
+    "drv_alg:square": ["MatrixInversion", "MatrixInversion (in place)", "MatrixLUInversion", "MatrixLUInversion (in place)"],
+    "drv_alg:ols": ["OrdinaryLeastSquares"], "drv_alg:pinv": ["MatrixMoorePenrosePseudoinverse"],
+    "drv_alg:eig": ["EVectEval (eigenvalues)", "EVectEval (eigenvectors)"], "drv_alg:svd": ["SVDlapack (U)", "SVDlapack (S)", "SVDlapack (V')"],
+    "drv_kernels:outer": ["RowColOuterProduct", "DVectorTrasposedDVectorDotProduct"],
+    "drv_kernels:unary": ["MatrixTranspose", "MatrixNorm", "MatrixCovariance", "MatrixColAverage (append)", "MatrixColVar (append)", "MatrixColSDEV (append)",
+                          "MatrixColRMS (append)", "MatrixRowAverage (append)"],
+    "drv_prep": ["MatrixPreprocess (transformed matrix)", "MatrixPreprocess (stored statistics)", "MatrixPreprocess (apply)"],
+    "drv_interp:spline": ["cubic_spline_interpolation (table that held a larger spline)", "cubic_spline_predict"],
+    "drv_interp:nm": ["NelderMeadSimplex (result vector holding numbers)", "NelderMeadSimplex (start point used as result vector)"],
+    "drv_stat:plsstat": ["PLSRegressionStatistics"],
+    "drv_lda": ["LDAPrediction"], "drv_sel": ["KMeans"],
+}
+
+
+def reuse_scan(ck, key, outs, describe):
+    """a routine that returns its result in an output object must return the same result when that object already holds
+    numbers (the same call repeated, junk of the right shape, a result of another shape) or when input and output are
+    the same object where the library supports it; the drivers make those calls and report a bit mask"""
+    names = REUSE_SITES[key]
+    n = 0
+    for k, o in enumerate(outs):
+        if not o or "reuse_bad" not in o:
+            continue
+        n += 1
+        mask = int(o["reuse_bad"])
+        for b, nm in enumerate(names):
+            if mask >> b & 1:
+                ck.fail(nm.split(" (")[0], "depends_on_previous_output_contents",
+                        "%s: the result differs when the output object already holds numbers or is shared with an input (fresh output vs reused output)" % nm, describe(k))
+                break
+    ck.count("calls repeated into used output objects", n)
+
+
 def run_driver_cases(ck, exe, lines, describe, header="", timeout=900, case_timeout=40, env=None, max_bad=5):
     """run one case per line; a case on which the library hangs (no answer within case_timeout seconds), crashes or
     aborts is reported as a FAILURE of the property with that input (describe(k) -> (site, input dict)), the remaining
